@@ -65,43 +65,6 @@ theorem tripleToC04_injective : Function.Injective tripleToC04 := by
   simp only [tripleToC04, Prod.mk.injEq] at h
   rw [toC04_injective h.1, toC04_injective h.2.1, toC04_injective h.2.2]
 
-/-! ### rows as binding lists -/
-
-theorem blookup_filterMap_keys {n : Nat} (μ : C04.Row n) (ks : List Nat) (v : Nat) :
-    blookup (ks.filterMap (fun k => (μ.get k).map (fun t => (k, ofC04 t)))) v =
-      if v ∈ ks then (μ.get v).map ofC04 else none := by
-  induction ks with
-  | nil => rfl
-  | cons k rest ih =>
-    simp only [List.filterMap_cons]
-    cases hk : μ.get k with
-    | none =>
-      simp only [Option.map_none]
-      rw [ih]
-      by_cases hv : v = k
-      · subst hv; simp [hk]
-      · simp [hv]
-    | some t =>
-      simp only [Option.map_some, blookup]
-      by_cases hv : k = v
-      · subst hv; simp [hk]
-      · rw [if_neg hv, ih]
-        have : v ≠ k := fun e => hv e.symm
-        simp [this]
-
-/-- the binding list of a row binds variable `v` to the row's value for `v` (translated back), and nothing else -/
-theorem blookup_rowToBinding {n : Nat} (μ : C04.Row n) (v : Nat) :
-    blookup (rowToBinding μ) v = (μ.get v).map ofC04 := by
-  unfold rowToBinding
-  rw [blookup_filterMap_keys]
-  by_cases hv : v < n
-  · simp [hv]
-  · have : μ.get v = none := by
-      simp only [C04.Row.get]
-      rw [Vector.getElem?_eq_none (by omega)]
-      rfl
-    simp [hv, this]
-
 /-! ### the dataset -/
 
 theorem toC04_WF (d : WhereDS) (h : (d.named.map (·.1)).Nodup) : d.toC04.WF := by
